@@ -157,10 +157,87 @@ static Result check_total(const J &c)
   return r;
 }
 
+// ---------------------------------------------------------------- targeted degenerate configurations
+// (1) an oceanic plate whose ridge runs through the plate: points exactly on the ridge have age zero
+// (2) an area feature whose point-wise max depth pinches out to its min depth along an edge: zero thickness there
+static J gen_special(Chooser &ch)
+{
+  g::Opt o;
+  g::Frame fr = g::gen_frame(ch, o);
+  J root = J::obj();
+  g::frame_to_json(fr, root);
+  if (ch.chance(30)) root["force surface temperature"] = true;
+  g::Opt none; none.grains = false; none.velocity = false; none.custom_tags = false;
+  g::FM m;
+  const bool ridge_case = ch.flip();
+  J c = J::obj();
+  J qs = J::arr();
+  const std::array<double, 2> ctr = g::gen_centre(ch, fr);
+  if (ridge_case)
+    {
+      J feat = g::area_feature(ch, fr, none, "oceanic plate", ctr, 0, m);
+      feat.erase("temperature models"); feat.erase("composition models");
+      m.dmin = 0; feat["min depth"] = 0.0;
+      J t = J::obj();
+      t["model"] = ch.pick<std::string>({"half space model", "plate model"});
+      t["max depth"] = m.dmax;
+      t["spreading velocity"] = ch.real(0.01, 0.15);
+      // through the kernel of the (star-shaped) polygon, any azimuth
+      const double az = ch.real(0, PI), ext = fr.sph ? 25.0 : 2500e3;
+      std::array<double, 2> a{{ctr[0] - ext * std::cos(az), ctr[1] - ext * std::sin(az)}}, b{{ctr[0] + ext * std::cos(az), ctr[1] + ext * std::sin(az)}};
+      if (fr.sph) { a[1] = std::max(-85.0, std::min(85.0, a[1])); b[1] = std::max(-85.0, std::min(85.0, b[1])); }
+      t["ridge coordinates"] = J::arr({J::arr({jp(a[0], a[1]), jp(ctr[0], ctr[1]), jp(b[0], b[1])})});
+      if (ch.flip()) t["bottom temperature"] = ch.lattice(1400, 1800, 50);
+      feat["temperature models"] = J::arr({t});
+      root["features"] = J::arr({feat});
+      for (int i = 0; i < 12; ++i)
+        {
+          const double s = ch.pick<double>({0.0, 0.0, 0.01, -0.01, 0.1, -0.2});
+          J q = g::make_query(fr, ctr[0] + s * (b[0] - ctr[0]), ctr[1] + s * (b[1] - ctr[1]), ch.pick<double>({0.0, 0.0, 1.0, 5e3, m.dmax}));
+          q["kind"] = "on-ridge-inside-plate";
+          qs.push(q);
+        }
+    }
+  else
+    {
+      const std::string type = ch.pick<std::string>({"continental plate", "oceanic plate", "mantle layer"});
+      J feat = g::area_feature(ch, fr, none, type, ctr, 0, m);
+      feat.erase("temperature models"); feat.erase("composition models");
+      feat["min depth"] = m.dmin;
+      // max depth: the bare value, and the first two corners pinched to the min depth (zero thickness along that edge)
+      J surf = J::arr();
+      surf.push(J::arr({J(m.dmax)}));
+      size_t i0 = 0;
+      while (i0 + 1 < m.coords.size() && (m.coords[i0][0] == 0 || m.coords[i0][1] == 0 || m.coords[i0 + 1][0] == 0 || m.coords[i0 + 1][1] == 0)) ++i0;
+      surf.push(J::arr({J(m.dmin), J::arr({jp(m.coords[i0][0], m.coords[i0][1]), jp(m.coords[(i0 + 1) % m.coords.size()][0], m.coords[(i0 + 1) % m.coords.size()][1])})}));
+      feat["max depth"] = surf;
+      J t = J::obj();
+      t["model"] = "linear"; t["max depth"] = ch.flip() ? J(m.dmax) : surf;
+      t["top temperature"] = ch.lattice(273, 600, 25); t["bottom temperature"] = ch.chance(30) ? -1.0 : ch.lattice(900, 1700, 50);
+      feat["temperature models"] = J::arr({t});
+      root["features"] = J::arr({feat});
+      const auto &v0 = m.coords[i0], &v1 = m.coords[(i0 + 1) % m.coords.size()];
+      for (int i = 0; i < 12; ++i)
+        {
+          const double s = ch.pick<double>({0.0, 1.0, 0.5, 0.25, 0.75});
+          const double tt = ch.pick<double>({1.0, 1.0, 0.999999, 0.9});
+          const double ex = v0[0] + s * (v1[0] - v0[0]), ey = v0[1] + s * (v1[1] - v0[1]);
+          J q = g::make_query(fr, ctr[0] + tt * (ex - ctr[0]), ctr[1] + tt * (ey - ctr[1]), ch.pick<double>({m.dmin, m.dmin, m.dmin + 1e-3, m.dmax}));
+          q["kind"] = "pinched-out-edge";
+          qs.push(q);
+        }
+    }
+  c["world"] = root.dump();
+  c["queries"] = qs;
+  c["props"] = g::gen_props(ch, 5);
+  return c;
+}
+
 int main(int argc, char **argv)
 {
   return run_main("C13", argc, argv,
   {
     {"total_finite", "worlds with 1..4 features of every type, all deterministic models incl. cooling models, operations, ranges (physical parameter domain of DESIGN section 3) x 4..30 queries at degenerate locations (polygon vertex/edge, trench coordinate/chord, dip point, slab tip region, below trench, poles, +-180, planet centre incl. |p|=1e-300, far away, model bottom, feature depth limits) x the generated list and a list with every property kind; each case runs in its own process so a crash is a failure of the case. Non-trivial: degenerate kinds", 150, gen_total, check_total, 100, true, true},
+    {"special_configurations", "oceanic plate with a half-space / plate model whose ridge runs through the plate, probed exactly on the ridge at depth 0 and below (age zero); area feature whose point-wise max depth pinches out to the min depth along one edge, with a linear model, probed on that edge and its end points at exactly that depth (zero thickness). Same oracle: finite values or a std::exception", 100, gen_special, check_total, 100, true, true},
   });
 }
